@@ -5,7 +5,7 @@ import ast
 
 from .. import rules
 from ..effects import Effects
-from ..model import Model, norm
+from ..model import Model, norm, call_args
 from ..report import Ob, OK, VIOLATED, ERROR, INFO
 
 META = {
@@ -68,9 +68,9 @@ def rule_result_shape(model: Model):
         k = f"{fshort}:RESULT-SHAPE:M"
         mids = []
         for n in ast.walk(f.node):
-            if isinstance(n, ast.Assign) and isinstance(n.targets[0], ast.Subscript) and isinstance(n.value, ast.Call) and norm(n.value.func).endswith("reshape") \
-                    and len(n.value.args) == 2 and isinstance(n.value.args[1], ast.List) and len(n.value.args[1].elts) == 3:
-                m = n.value.args[1].elts[1]
+            ra = call_args(n.value, "reshape") if isinstance(n, ast.Assign) and isinstance(n.value, ast.Call) else None
+            if ra and isinstance(n.targets[0], ast.Subscript) and len(ra) == 2 and isinstance(ra[1], ast.List) and len(ra[1].elts) == 3:
+                m = ra[1].elts[1]
                 if isinstance(m, ast.Subscript) and isinstance(m.value, (ast.Name, ast.Attribute)):
                     mids.append(norm(m.value))
         ok = bool(mids) and all(x in aliases or x == msrc for x in mids)
